@@ -79,7 +79,7 @@ def berespLine : List String → String
       let st := feed ss {}
       let (out, fin) := go st.evs []
       (if fin then "fin" else "go") ++ " out=" ++ toHex out ++ " rb=" ++
-        toString (if fin then 0 else st.buf.length) ++ " rid=" ++ (if fin then "-1" else "1")
+        toString (if fin then 0 else st.got) ++ " rid=" ++ (if fin then "-1" else "1")
     | none => "bad-op"
   | _ => "bad-op"
 
